@@ -25,10 +25,7 @@ fn content_tape<const N: usize>(items: &[Item; N], n: usize) -> Tape {
     t
 }
 
-#[cfg(not(feature = "verif_deep"))]
 const N_ITEMS: usize = 2;
-#[cfg(feature = "verif_deep")]
-const N_ITEMS: usize = 3;
 
 use crate::message::rpc::error::verif_error as ve;
 
@@ -126,9 +123,50 @@ fn c08_empty_reply() {
     std::mem::forget(res);
 }
 
+/// Summary of `Opaque::read_xml` (two lines: `read_text` to the end tag, `into()`): consumes the
+/// element and returns a fixed value.  Building an `Arc<str>` from a text of symbolic length is
+/// what makes the real function expensive; the real one runs in `c08_opaque_reader`.
+pub fn stub_opaque_read_xml(reader: &mut NsReader<&[u8]>, start: &BytesStart<'_>) -> Result<crate::message::rpc::operation::Opaque, ReadError> {
+    let _ = reader.read_to_end(start.to_end().name())?;
+    Ok(crate::message::rpc::operation::Opaque::from("x"))
+}
+
+/// The real `Opaque::read_xml` on `<data>x</data>` and on an unterminated `<data>`.
+#[kani::proof]
+#[kani::unwind(10)]
+fn c08_opaque_reader() {
+    use crate::message::rpc::operation::Opaque;
+    use_reply_tables();
+    let closed: bool = kani::any();
+    let mut t = Tape::EMPTY;
+    t.push(cells::TEXT_X);
+    if closed {
+        t.push(cells::DATA_END);
+        t.push(cells::OK);
+    }
+    tape::register(0, t);
+    let mut reader = reader_for(0);
+    let start = BytesStart::from_id(n::DATA);
+    let res = Opaque::read_xml(&mut reader, &start);
+    match &res {
+        Ok(o) => {
+            assert!(closed && &**o == "x", "C08 Opaque: wrong content");
+            match reader.read_resolved_event() {
+                Ok((_, quick_xml::events::Event::Empty(_))) => {}
+                _ => assert!(false, "C08 Opaque: reader did not stop after </data>"),
+            }
+        }
+        Err(_) => assert!(!closed, "C08 Opaque: well-formed <data> rejected"),
+    }
+    kani::cover!(res.is_ok(), "accepted");
+    kani::cover!(res.is_err(), "rejected");
+    std::mem::forget(res);
+}
+
 /// C08, `DataReply<Opaque>` (get, get-config).
 #[kani::proof]
 #[kani::unwind(10)]
+#[kani::stub(<crate::message::rpc::operation::Opaque as crate::message::ReadXml>::read_xml, stub_opaque_read_xml)]
 #[kani::stub(<crate::message::rpc::Error as crate::message::ReadXml>::read_xml, crate::message::rpc::error::verif_error::stub_read_xml)]
 #[kani::stub(crate::message::rpc::Errors::new, crate::message::rpc::error::verif_error::stub_errors_new)]
 #[kani::stub(crate::message::rpc::Errors::push, crate::message::rpc::error::verif_error::stub_errors_push)]
